@@ -47,7 +47,7 @@ def psfCmd : P String := do
       s!" {c0s} {ts.size} " ++ hexArr ts ++ " " ++ hexArr ss)
 
 /-- `mtfunits n g wl fno infinite xpd epd m pixels` →
-`fnoW maxFreq stepCode stepSpec extent` then `g/2` axis values for code and for spec -/
+`fnoW maxFreq stepCode stepSpec extent` then `g - g/2` axis values for code and for spec -/
 def unitsCmd : P String := do
   let n ← nat; let g ← nat
   let wl ← flt; let fno ← flt; let inf ← bool; let xpd ← flt; let epd ← flt; let mag ← flt
@@ -57,9 +57,10 @@ def unitsCmd : P String := do
   let sc := freqStepCode n g wl fw
   let ss := freqStepSpec n wl fw
   let ext := psfExtent n g pixels wl fw
-  let axC := tab (g / 2) (freqAxis sc)
-  let axS := tab (g / 2) (freqAxis ss)
-  pure (hexs [fw, mf, sc, ss, ext] ++ s!" {g / 2} " ++ hexArr axC ++ " " ++ hexArr axS)
+  -- `freq = np.arange(grid_size - grid_size // 2) * dx`: one frequency per sample of the curves
+  let axC := tab (g - g / 2) (freqAxis sc)
+  let axS := tab (g - g / 2) (freqAxis ss)
+  pure (hexs [fw, mf, sc, ss, ext] ++ s!" {g - g / 2} " ++ hexArr axC ++ " " ++ hexArr axS)
 
 /-- `geomtf numPoints maxFreq scale M xi…` → `numPoints mtf… difflim… freq…` -/
 def geoCmd : P String := do
